@@ -392,7 +392,9 @@ def check_ownership(ctx, repo, cls):
             continue
         selfn = func_params(fn)[0]
         deleg = [c for c in calls_in(fn) if access_path(c.func) in (selfn + ".add", selfn + ".append")]
-        ctx.check(bool(deleg), "R5", "Archive.%s" % name, where(mod, fn), "inserts through add() (dominance-tested)", key="delegation")
+        writes = any(method_call(c) and access_path(method_call(c)[0]) == selfn + "._contents" for c in calls_in(fn))
+        ctx.check3(True if deleg else (False if writes else None), "R5", "Archive.%s" % name, where(mod, fn), "inserts through add() (dominance-tested)",
+                   "members are put into the content list without the dominance test of add()", "insertion path not recognised", key="delegation")
 
 
 def run(ctx):
